@@ -56,6 +56,32 @@ def _colliding_value() -> int:
     return _COLLIDE[1]
 
 
+def _colliding_other_class_value() -> int:
+    """A value w such that VNonCmp(v=w) -- a class unrelated to VLeaf -- and VLeaf(0) share their
+    1-byte id (concrete search)."""
+    if 2 not in _COLLIDE:
+        from models.zoo import VNonCmp
+        from pyoak import config
+        from pyoak.node import NODE_REGISTRY
+
+        old = config.ID_DIGEST_SIZE
+        config.ID_DIGEST_SIZE = 1
+        try:
+            NODE_REGISTRY.clear()
+            base = VLeaf(v=0).id
+            w = 0
+            while True:
+                NODE_REGISTRY.clear()
+                if VNonCmp(v=w).id == base:
+                    break
+                w += 1
+            _COLLIDE[2] = w
+        finally:
+            config.ID_DIGEST_SIZE = old
+            NODE_REGISTRY.clear()
+    return _COLLIDE[2]
+
+
 def _kids(n: Any) -> list[Any]:
     out = []
     for f in dataclasses.fields(n):
@@ -87,7 +113,7 @@ def _idkey(n: Any) -> tuple:
     return (type(n).__name__, n.origin.fqn, getattr(n, "v", None), getattr(n, "w", None), tuple((_content(c), c.origin.fqn) for c in _kids(n)))
 
 
-def make_harness(K: int, first_ops: list[str], digest_sizes: list[int], max_handles: int = 4, forced: dict[int, str] | None = None, restrict: dict[int, list[str]] | None = None):
+def make_harness(K: int, first_ops: list[str], digest_sizes: list[int], max_handles: int = 4, forced: dict[int, str] | None = None, restrict: dict[int, list[str]] | None = None, other_class_leaf: bool = False):
     forced = forced or {}
     restrict = restrict or {}
     def harness(e):
@@ -97,6 +123,8 @@ def make_harness(K: int, first_ops: list[str], digest_sizes: list[int], max_hand
         reset_all()
         size = e.pick(digest_sizes, "digest_size")
         collide = _colliding_value()
+        collide_other = _colliding_other_class_value() if other_class_leaf else None
+        saved: list[Any] = []  # payloads written by save_detach: (class, dict)
         reset_all()
         config.ID_DIGEST_SIZE = size
         strict = e.bool("strict")
@@ -201,16 +229,22 @@ def make_harness(K: int, first_ops: list[str], digest_sizes: list[int], max_hand
             if step in restrict:
                 ops = [o for o in ops if o in restrict[step]]
             if step in forced:
-                if forced[step] not in ops:
+                if forced[step] not in ops and not (forced[step] in ("save_detach", "load_saved") and handles):
                     e.assume(False)
                 op = forced[step]
             else:
                 op = e.pick(ops, f"op{step}")
             if op == "leaf":
-                v = e.pick([0, collide], f"val{step}")
-                tw, col = predicted_base(VLeaf, {"v": v})
-                n = VLeaf(v=v)
-                history.append(f"h{len(handles)} = VLeaf(v={v})")
+                v = e.pick([0, collide] + (["other-class"] if other_class_leaf else []), f"val{step}")
+                if v == "other-class":
+                    from models.zoo import VNonCmp
+
+                    lcls, v = VNonCmp, collide_other
+                else:
+                    lcls = VLeaf
+                tw, col = predicted_base(lcls, {"v": v})
+                n = lcls(v=v)
+                history.append(f"h{len(handles)} = {lcls.__name__}(v={v})")
                 note_created(n, tw, col)
                 handles.append(n)
             else:
@@ -236,10 +270,10 @@ def make_harness(K: int, first_ops: list[str], digest_sizes: list[int], max_hand
                     handles.append(n)
                 elif op == "replace":
                     same = e.flag(f"same_content{step}")
-                    kw = ({"v": h.v} if same else {"v": h.v + 100}) if isinstance(h, VLeaf) else ({"items": h.items} if same else {"items": ()})
+                    kw = ({"v": h.v} if same else {"v": h.v + 100}) if hasattr(h, "v") else ({"items": h.items} if same else {"items": ()})
                     n = h.replace(**kw)
                     gone.add(id(h))
-                    history.append(f"h{len(handles)} = h{hi}.replace({kw if isinstance(h, VLeaf) else ('items=same' if same else 'items=()')})")
+                    history.append(f"h{len(handles)} = h{hi}.replace({kw if hasattr(h, 'v') else ('items=same' if same else 'items=()')})")
                     if type(n) is not type(h):
                         e.fail("replace-changes-class", scenario=scenario)
                     handles.append(n)
@@ -293,6 +327,23 @@ def make_harness(K: int, first_ops: list[str], digest_sizes: list[int], max_hand
                         gone.add(o)
                     n = type(h).as_obj(data)
                     history.append(f"h{len(handles)} = as_obj(h{hi}.as_dict()) after h{hi}.detach()")
+                    handles.append(n)
+                elif op == "save_detach":
+                    # the payload outlives the node: written now, read back at a later step
+                    saved.append((type(h), h.as_dict()))
+                    h.detach()
+                    for o in _closure([h]):
+                        gone.add(o)
+                    history.append(f"saved = h{hi}.as_dict(); h{hi}.detach()")
+                elif op == "load_saved":
+                    if not saved:
+                        e.assume(False)
+                    cls_, data = saved[-1]
+                    n = cls_.as_obj(data)
+                    history.append(f"h{len(handles)} = as_obj(saved)")
+                    if id(n) in gone:
+                        scenario.update(returned=repr(_content(n)))
+                        e.fail("deserialization-returns-a-detached-node", scenario=scenario)
                     handles.append(n)
                 elif op == "drop":
                     before = _closure(handles)
@@ -423,6 +474,13 @@ def spec(tier: str, seed: int) -> Spec:
                         forced[2] = third
                     name = f"K{K}{'r' if restrict else ''}-size{size}-{second}" + (f"-{third}" if third else "")
                     fams.append(Family(name, make_harness(K, ["leaf"], [size], forced=forced, restrict=restrict), variables=var))
+    # payloads that outlive their node: written and detached at step 1, one or two free operations
+    # (leaves may be of an unrelated class whose 1-byte id collides), then read back
+    free = ["leaf", "parent", "drop", "detach_self", "duplicate", "replace"]
+    for size in (1, 8):
+        for mid in free:
+            fams.append(Family(f"saved-payload-K4-size{size}-{mid}", make_harness(4, ["leaf"], [size], forced={0: "leaf", 1: "save_detach", 2: mid, 3: "load_saved"}, other_class_leaf=True), variables=var))
+            fams.append(Family(f"saved-payload-K5-size{size}-{mid}", make_harness(5, ["leaf"], [size], forced={0: "leaf", 1: "save_detach", 2: mid, 4: "load_saved"}, restrict={3: free}, other_class_leaf=True), variables=var))
     fams.append(Family("id-determinism-per-field-kind", determinism_harness, variables="selectors: class (non-comparable / non-init / both / slotted / falsy ...), digest size, origin, child, how the predecessor left the registry"))
     Kmax = plan[-1][0]
     return Spec(
